@@ -14,6 +14,7 @@ func VerifC06Regexps() map[string]*regexp.Regexp {
 		"offset@configs.offsetRegexp":             offsetRegexp,
 		"proxy_buffers@configs.proxyBuffersRegexp": proxyBuffersRegexp,
 		"time@configs.timeRegexp":                 timeRegexp,
+		"ing_rate@configs.rateRegexp":             rateRegexp,
 	}
 }
 
